@@ -63,3 +63,15 @@ func decodeHeader(src []byte, t Type) (int, byte, int, error) {
 
 	return total, flags, rl, nil
 }
+
+// limitToPacket returns the bytes of src that belong to the packet at its
+// beginning as declared by the remaining length in its header. Bytes that
+// follow the packet are cut off so that no field is ever read from them.
+func limitToPacket(src []byte) []byte {
+	n, _ := DetectPacket(src)
+	if n > 0 && n < len(src) {
+		return src[:n]
+	}
+
+	return src
+}
